@@ -1,21 +1,29 @@
 """C20 — chemical-reaction steps conserve energy and keep molecules aligned (Cro.tla, Run.tla clause C20)."""
 import json, os
 import vlib
-from checks import runlib
+from checks import runlib, templates_grid
 
 MANIFEST = {
     "modules": ["Cro", "Trace_Cro", "Run"],
     "text": "Cro.tla models the four elementary reaction updates over integer energies exactly as the components compute them "
-            "(accepted / rejected / buffer-assisted, random splits as nondeterministic choices); TLC checks Conserved (sum of "
-            "objective values + kinetic energies + buffer unchanged by every action), NonNegative, Aligned, ConsumesTwo and "
-            "Locality for all energies and reaction outcomes within the bound. Binding (prepared states): every (state, "
-            "reaction) pair of the bounded model and seeded random integer-energy states (equal individuals, zero energies, "
-            "boundary products) are executed by the real update components on a prepared State (population, molecule list, "
-            "buffer, reactant and product populations on the stack); Trace_Cro.tla loads each recorded state into Cro's "
+            "(accepted / rejected / buffer-assisted, random splits as nondeterministic choices) on a population whose "
+            "individuals hold solutions AND objective values (the same solution with different objective values, copies, a "
+            "product landing on a bystander's solution) with 0..1 populations of a caller underneath; TLC checks Conserved (sum of "
+            "objective values + kinetic energies + buffer unchanged by every action), NonNegative, Aligned, ConsumesTwo "
+            "(h = below + 3 -> below + 1) and Locality (bystanders keep solution, objective value and kinetic energy) for all "
+            "energies and reaction outcomes within the bound. Binding (prepared states): every (state, "
+            "reaction) pair of the bounded model and seeded random integer-energy states (equal individuals, equal solutions "
+            "with different objective values, zero energies, products costing exactly what is there / one more, 0..3 "
+            "populations underneath holding copies of reactants, products and the population) are executed by the real update "
+            "components on a prepared State, each in a power-of-two energy unit between 2^-200 and 2^200 (exact scaling: the "
+            "integer decision of the model binds at every magnitude), some with an offset of 2^51 (exact) or 2^60 (inexact) on "
+            "reactant and product; Trace_Cro.tla loads each recorded state into Cro's "
             "variables and requires the recorded outcome to be a step of Cro's own action for that call: accepted / rejected "
-            "decided from the integer energies, objective values after exactly, kinetic share and buffer level rounded, plus "
-            "float predicates (conserved, non-negative, shares add up, non-participants bit-identical, molecules aligned). "
-            "Binding (runs): real_cro runs over population sizes, "
+            "decided from the integer energies, objective values and solutions after exactly and in place, kinetic share and "
+            "buffer level rounded, plus float predicates (conserved, non-negative, shares add up, non-participants "
+            "bit-identical, molecules aligned, populations underneath bit-identical). "
+            "Binding (runs): real_cro runs, and runs of real_cro as a step of a heuristic with a population of its own "
+            "underneath (real_cro|under), over population sizes, "
             "collision rates and seeds under the step observer; after EVERY component TLC (Run.tla clause C20) requires "
             "energy conserved within 1e-9 relative w.r.t. the previous step, no negative kinetic energy or buffer, one "
             "molecule per individual of the base population, each molecule's remembered best no worse than its individual "
@@ -30,36 +38,54 @@ RULE = ("cases = reaction updates on prepared states (every (state, reaction) pa
 
 
 CRO_DESCRIBE = {
-    "state": lambda r: [r.get("pe2"), r.get("nm"), r.get("bf"), r.get("kef")],
-    "act": lambda r: {k: r.get(k) for k in ("op", "i", "j", "p1", "p2", "pe", "ke", "buffer", "seed", "lr")},
+    "state": lambda r: [r.get("pe2"), r.get("sol2"), r.get("nm"), r.get("bf"), r.get("kef")],
+    "act": lambda r: {k: r.get(k) for k in ("op", "i", "j", "p1", "p2", "pe", "ke", "sol", "below", "buffer", "seed", "lr", "unit", "off")},
     "is_reset": lambda r: False,
     "nontrivial": lambda r, before, after: r.get("res") != "unchanged",
 }
 
 
 def cfg_trace_cro(maxmol):
-    return ("SPECIFICATION TraceSpec\nCONSTANTS\n  MaxE = 0\n  MaxMol = %d\nPOSTCONDITION TraceDone\nCHECK_DEADLOCK FALSE\n" % maxmol)
+    return ("SPECIFICATION TraceSpec\nCONSTANTS\n  MaxE = 0\n  MaxMol = %d\n  MaxSol = 1\n  MaxBelow = 0\nPOSTCONDITION TraceDone\n"
+            "CHECK_DEADLOCK FALSE\n" % maxmol)
+
+
+def cfg_mc(maxmol, maxsol, maxbelow, tail, constraint="Bounded"):
+    return ("SPECIFICATION CSpec\nCONSTANTS\n  MaxE = 2\n  MaxMol = %d\n  MaxSol = %d\n  MaxBelow = %d\nVIEW McView\nCONSTRAINT %s\n%s"
+            "CHECK_DEADLOCK FALSE\n" % (maxmol, maxsol, maxbelow, constraint, tail))
 
 
 def prepared(ctx):
     """Prepared states: (B) every (state, reaction) pair of the bounded model, (C) random integer-energy states."""
     q = ctx.quick
-    ex = ctx.tlc_mc("MC_Cro", "SPECIFICATION CSpec\nCONSTANTS\n  MaxE = 2\n  MaxMol = %d\nVIEW McView\nCONSTRAINT Bounded\n"
-                    "ACTION_CONSTRAINT PrintEdge\nCHECK_DEADLOCK FALSE\n" % (2 if q else 3), "export-cro", workers=1, timeout=3000)
+    # quick: the 2-molecule model with up to two distinct solutions and one population underneath; thorough: that one, and
+    # the 3-molecule model on the minimal stack with everybody holding the same solution (different objective values),
+    # prepared states within two reactions of an initial state
+    exports = [("export-cro", 2, 2, 1, "Bounded")] + ([] if q else [("export-cro3", 3, 1, 0, "Bounded Shallow")])
     seen, cases = set(), []
     import tour
-    for e in tour.parse_edges(ex["out"]):
-        key = json.dumps([e["from"], e["act"]], sort_keys=True)
-        if key not in seen:
-            seen.add(key)
-            cases.append({"from": e["from"], "act": e["act"]})
+    for (name, mm, ms, mb, con) in exports:
+        ex = ctx.tlc_mc("MC_Cro", cfg_mc(mm, ms, mb, "ACTION_CONSTRAINT PrintEdge\n", con), name, workers=1, timeout=3000)
+        for e in tour.parse_edges(ex["out"]):
+            key = json.dumps([e["from"], e["act"]], sort_keys=True)
+            if key not in seen:
+                seen.add(key)
+                cases.append({"from": e["from"], "act": e["act"]})
     if len(cases) < 1000:
         raise vlib.ToolError("export of the Cro model yielded only %d (state, reaction) pairs" % len(cases))
     ops = {c["act"]["op"] for c in cases}
     if ops != {"init", "scoped_init", "on_wall", "decompose", "intermolecular", "synthesis"}:
         raise vlib.ToolError("vacuous export: reactions %s" % sorted(ops))
-    # (quick: every third pair of the 2-molecule model; thorough: every fourth pair of the 3-molecule model)
-    cases = cases[ctx.seed % 3::3] if q else cases[ctx.seed % 4::4]
+    # the export has to offer what the binding is about: populations underneath, and two individuals holding the same
+    # solution with different objective values one of which reacts
+    def noisy_twin(c):
+        f, a = c["from"], c["act"]
+        return a["i"] > 0 and any(k + 1 != a["i"] and f["sol"][k] == f["sol"][a["i"] - 1] and f["pe"][k] != f["pe"][a["i"] - 1]
+                                  for k in range(len(f["pe"])))
+    if not any(c["from"]["below"] > 0 for c in cases) or not any(noisy_twin(c) for c in cases):
+        raise vlib.ToolError("vacuous export: no populations underneath / no equal solutions with different objective values")
+    # (quick: every eighth pair of the 2-molecule model; thorough: the same of both models)
+    cases = cases[ctx.seed % 8::8]
     cpath = os.path.join(ctx.work, "cro.cases.ndjson")
     with open(cpath, "w") as f:
         for c in cases:
@@ -69,18 +95,22 @@ def prepared(ctx):
     ctx.harness("cro", "replay", **{"in": cpath, "out": tr, "seed": ctx.seed, "seeds": 2})
     ctx.validate("Trace_Cro", cfg_trace_cro(99), tr, "cro-enum", CRO_DESCRIBE, {"driver": "cro"}, timeout=3000)
     tr = os.path.join(ctx.work, "cro-random.trace.ndjson")
-    ctx.harness("cro", "random", out=tr, seed=ctx.seed, n=6000 if q else 60000, maxe=40 if q else 120)
+    ctx.harness("cro", "random", out=tr, seed=ctx.seed, n=6000 if q else 40000, maxe=40 if q else 120)
     ctx.validate("Trace_Cro", cfg_trace_cro(99), tr, "cro-random", CRO_DESCRIBE, {"driver": "cro"}, timeout=3000)
 
 
 def run(ctx):
     q = ctx.quick
     prepared(ctx)
-    ctx.tlc_mc("MC_Cro", "SPECIFICATION CSpec\nCONSTANTS\n  MaxE = 2\n  MaxMol = %d\nVIEW McView\nCONSTRAINT Bounded\nINVARIANT NonNegative Aligned\n"
-               "PROPERTY Conserved ConsumesTwo Locality\nCHECK_DEADLOCK FALSE\n" % (2 if q else 3), "mc-cro",
-               workers=4 if q else 10, timeout=3000)
+    props = "INVARIANT NonNegative Aligned\nPROPERTY Conserved ConsumesTwo Locality\n"
+    ctx.tlc_mc("MC_Cro", cfg_mc(2, 2, 1, props), "mc-cro", workers=4, timeout=3000)
+    if not q:
+        # three molecules: two distinct solutions on the minimal stack
+        ctx.tlc_mc("MC_Cro", cfg_mc(3, 2, 0, props), "mc-cro3", workers=10, timeout=3000)
     runlib.run_templates(ctx, ["C20"], seeds=list(range(ctx.seed, ctx.seed + (4 if q else 12))),
-                         iters=[0, 3, 20, 60] if q else [3, 20, 60, 200], templates=["real_cro"], quick_grid=False)
+                         iters=[0, 3, 20, 60] if q else [3, 20, 60, 200], templates=["real_cro"], quick_grid=False,
+                         more_specs=templates_grid.cro_under_specs(q, [ctx.seed, ctx.seed + 1] if q else list(range(ctx.seed, ctx.seed + 4)),
+                                                                   [3, 40] if q else [3, 40, 150]))
     return ctx.finish(RULE)
 
 
@@ -89,8 +119,9 @@ def replay(ctx, rp):
         a = rp["first_unmatched"]
         cpath = os.path.join(ctx.work, "replay.cases.ndjson")
         with open(cpath, "w") as f:
-            f.write(json.dumps({"from": {"pe": a["pe"], "ke": a["ke"], "buffer": a["buffer"]},
-                                "act": {k: a[k] for k in ("op", "i", "j", "p1", "p2")}}) + "\n")
+            f.write(json.dumps({"from": {"pe": a["pe"], "ke": a["ke"], "sol": a["sol"], "buffer": a["buffer"], "below": a["below"]},
+                                "act": {k: a[k] for k in ("op", "i", "j", "p1", "p2")},
+                                "unit": a["unit"], "off": a["off"], "lr": a["lr"]}) + "\n")
         tr = os.path.join(ctx.work, "replay.trace.ndjson")
         ctx.harness("cro", "replay", **{"in": cpath, "out": tr, "seed": a["seed"], "seeds": 1})
         ctx.validate("Trace_Cro", cfg_trace_cro(99), tr, "replay", CRO_DESCRIBE, rp["meta"])
